@@ -5,6 +5,7 @@ import (
 	"fmt"
 	"io"
 	"os"
+	"runtime"
 
 	"github.com/datastax/go-cassandra-native-protocol/compression/lz4"
 	"github.com/datastax/go-cassandra-native-protocol/compression/snappy"
@@ -260,3 +261,5 @@ func (c *chunkReader) Read(p []byte) (int, error) {
 func drawChunks(t *rapid.T) []int {
 	return rapid.SliceOfN(rapid.SampledFrom([]int{1, 2, 3, 5, 8, 13, 64, 1000, 65536}), 1, 5).Draw(t, "chunks")
 }
+
+func yield() { runtime.Gosched() }
